@@ -80,7 +80,95 @@ def gen_case(r):
     return 'rp %d %d %s' % (size, nh, ' '.join(str(t) for t in toks))
 
 
+def gen_case2(r):
+    """two pools of one T: acquire from either pool, release, move-construct, move-assign -- biased to moves ACROSS pools (the handle changes its pool_)"""
+    sizes = [r.choice([1, 2, 2, 3]), r.choice([1, 1, 2, 3])]
+    nh = r.randint(2, 6)
+    st = [None] * nh          # None dead, else [pool, holds?]
+    free = list(sizes)
+    toks = []
+    for _ in range(r.randint(3, 14)):
+        dead = [i for i in range(nh) if st[i] is None]
+        live = [i for i in range(nh) if st[i] is not None]
+        ch = []
+        for p in (0, 1):
+            if dead and free[p] > 0:
+                ch += [('a', p)] * 3
+        if live:
+            ch += [('r', 0)]
+        if live and dead:
+            ch += [('c', 0)]
+        if len(live) >= 2:
+            ch += [('m', 0)] * 4
+        if not ch:
+            break
+        k, p = r.choice(ch)
+        if k == 'a':
+            h = r.choice(dead)
+            toks += ['a', p, h]; st[h] = [p, True]; free[p] -= 1
+        elif k == 'r':
+            h = r.choice(live)
+            toks += ['r', h]
+            if st[h][1]:
+                free[st[h][0]] += 1
+            st[h] = None
+        elif k == 'c':
+            d, s = r.choice(dead), r.choice(live)
+            toks += ['c', d, s]; st[d] = list(st[s]); st[s][1] = False
+        else:
+            cross = [(d, s) for d in live for s in live if d != s and st[d][0] != st[s][0]]
+            if cross and r.random() < 0.7:
+                d, s = r.choice(cross)
+            else:
+                d, s = r.choice(live), r.choice(live)
+            toks += ['m', d, s]
+            if d != s:
+                if st[d][1]:
+                    free[st[d][0]] += 1
+                st[d] = list(st[s]); st[s][1] = False
+    return 'rq %d %d %d %s' % (sizes[0], sizes[1], nh, ' '.join(str(t) for t in toks))
+
+
+def case_term2(case, out):
+    t = case.split()
+    sizes, nh = [int(t[1]), int(t[2])], int(t[3])
+    toks = t[4:]
+    ops = []
+    i = 0
+    while i < len(toks):
+        k = toks[i]
+        if k == 'a':
+            ops.append('MJAcquire %s%%nat %s%%nat' % (toks[i + 1], toks[i + 2])); i += 3
+        elif k == 'r':
+            ops.append('MJRelease %s%%nat' % toks[i + 1]); i += 2
+        elif k == 'c':
+            ops.append('MJMoveCtor %s%%nat %s%%nat' % (toks[i + 1], toks[i + 2])); i += 3
+        else:
+            ops.append('MJMoveAssign %s%%nat %s%%nat' % (toks[i + 1], toks[i + 2])); i += 3
+    out = out or ''
+    segs = re.findall(r'\|([^|;]*);', out)
+    hang = 'HANG' in out
+    completed = bool(segs) and segs[-1].strip().startswith('E') and 'CRASH' not in out and not hang
+    ctor, dtor = [], []
+    if completed:
+        m = re.match(r'\s*E([\d\s-]*)D([\d\s-]*)', segs[-1])
+        ctor = [int(x) for x in m.group(1).split()]
+        dtor = [int(x) for x in m.group(2).split()]
+        segs = segs[:-1]
+    zl = lambda l: dv.coq_list([dv.zlit(x) for x in l]) if l else '(@nil Z)'
+    terms = []
+    for o, seg in zip(ops, segs):
+        m = re.match(r'([\d\s-]*)P([\d\s-]*)Q([\d\s-]*)', seg)
+        if not m:
+            break
+        terms.append('(%s, %s, %s, %s)' % (o, zl([int(x) for x in m.group(1).split()]), zl([int(x) for x in m.group(2).split()]), zl([int(x) for x in m.group(3).split()])))
+    return '([%d%%nat; %d%%nat], %d%%nat, %s, %s, %s, %s, %s)' % (sizes[0], sizes[1], nh, dv.coq_list(terms) if terms else '(@nil (mjop * list Z * list Z * list Z))',
+                                                              zl(ctor), zl(dtor), 'true' if hang else 'false', 'true' if completed else 'false'), len(segs)
+
+
 def case_term(case, out):
+    if case.startswith('rq '):
+        return case_term2(case, out)
     t = case.split()
     size, nh = int(t[1]), int(t[2])
     toks = t[3:]
@@ -132,7 +220,13 @@ def run(ctx):
              'rp 1 3 a 0 b 1 0 m 1 1 c 2 1 r 2',              # blocking acquire, self-move, move-construct
              'rp 3 4 a 0 a 1 a 2 b 3 1 m 0 3 m 2 2',
              'rp 4 6 a 0 a 1 a 2 a 3 m 0 1 m 0 2 m 0 3 a 4 a 5 m 1 0 r 1']
+    fixed2 = ['rq 2 1 3 a 0 0 a 1 1 m 0 1 r 0 r 1',             # move assignment ACROSS pools: the destination's resource returns to ITS pool, the slot changes pool
+              'rq 1 1 4 a 0 0 a 1 1 c 2 1 m 0 1 m 0 2 a 0 3',      # from a moved-from handle of the other pool, then from a holder
+              'rq 2 2 4 a 0 0 a 0 1 a 1 2 m 2 0 m 1 2 a 1 3 r 3']
     cases = fixed + [gen_case(r) for _ in range(n)]
+    cases2 = fixed2 + [gen_case2(r) for _ in range(n // 2)]
+    n1 = len(cases)
+    cases = cases + cases2
     outs = pf_common.run_harness(exe, cases, timeout=900)
     ctx.phase('run')
     terms, ndone = [], []
@@ -140,10 +234,11 @@ def run(ctx):
         t, k = case_term(c, o)
         terms.append(t)
         ndone.append(k)
-    imports = 'From DV Require Import Base.Corr Model.ResPoolModel Model.C25Check.'
-    jobs = [('cases%d' % k, sh) for k, sh in enumerate(pf_common.shard(terms, 3 if ctx.quick else 16))]
+    imports = 'From DV Require Import Base.Corr Model.ResPoolModel Model.ResPoolMultiModel Model.C25Check.'
+    jobs = [('cases%d' % k, 'judge_rp', sh) for k, sh in enumerate(pf_common.shard(terms[:n1], 3 if ctx.quick else 16))]
+    jobs += [('mcases%d' % k, 'judge_rq', sh) for k, sh in enumerate(pf_common.shard(terms[n1:], 2 if ctx.quick else 8))]
     with concurrent.futures.ThreadPoolExecutor(max_workers=4) as ex:
-        results = list(ex.map(lambda j: pf_common.coq_judge(ctx, j[0], imports, [('judge_rp', j[1])]), jobs))
+        results = list(ex.map(lambda j: pf_common.coq_judge(ctx, j[0], imports, [(j[1], j[2])]), jobs))
     ctx.phase('judge')
     if any(x is None for x in results):
         ctx.broken.append('correspondence D(C25): the model no longer evaluates (see coq_eval_errors)')
@@ -152,6 +247,7 @@ def run(ctx):
     hist = {0: 0, 1: 0, 2: 0}
     distinct = set()
     nblocking = 0
+    ncross = 0
     for c, o, vv in zip(cases, outs, verd):
         v, k = vv % 10, vv // 10
         hist[v] = hist.get(v, 0) + 1
@@ -160,6 +256,8 @@ def run(ctx):
         if ' b ' in c:
             nblocking += 1
         cmd = 'echo "%s" | build/harness/h_respool-*' % c
+        if c.startswith('rq ') and re.search(r' m \d+ \d+', c):
+            ncross += 1
         if v == 2:
             ctx.violation('ResourcePool: operation #%d (0-based; = number of operations means teardown/hang) of "%s": a resource is held twice / more than size held / '
                           'queue+held != size / acquire blocked although a resource was free / construction-destruction counts are not 1: %s'
@@ -170,9 +268,12 @@ def run(ctx):
     ctx.cov['distinct_nontrivial'] += len(distinct)
     ctx.cov['rule'] = ('operation sequences (3..16 ops) over 2..6 handle slots and pools of 1..4 resources: acquire, release, move-construct, move-assign (biased '
                        'to targets that hold a resource; self-move), blocking acquire with a second thread when all are held; non-trivial = contains a move or a '
-                       'blocking acquire; distinct = distinct case lines')
+                       'blocking acquire; distinct = distinct case lines.  Plus TWO pools of one T side by side (kind rq): acquire from either, release, moves biased to '
+                       'move assignments across pools (the handle changes pool_), per-pool queue sizes and every handle\'s pool_ compared with the multi-pool model')
     ctx.cov['verdict_histogram'] = {'agree_and_property_holds': hist[0], 'differs_but_property_holds': hist[1], 'property_fails': hist[2]}
     ctx.cov['cases_with_blocking_acquire'] = nblocking
+    ctx.cov['two_pool_cases'] = len(cases) - n1
+    ctx.cov['two_pool_cases_with_move_assignment'] = ncross
     ctx.cov['traces_validated_against_impl'] += hist[0]
     ctx.sample({'case': cases[0], 'impl': outs[0]})
     ctx.sample({'case': cases[1], 'impl': outs[1]})
